@@ -57,6 +57,11 @@ def op_chain(n):
 
 
 def builder_shape(core):
+    GROUP_KEY[0] = (0, 1)
+    return _builder_shape(core)
+
+
+def _builder_shape(core):
     """Reads build_pratt_parser: returns (ok, why, tail) where tail is the list of .op() registrations after the
     infix loop, in program order. The infix part must be: group rows by (prec, assoc) in first-seen order,
     one stable sort_by_key on prec, one loop registering each group with .op()."""
@@ -96,24 +101,46 @@ def builder_shape(core):
     if len(group_loops) != 1:
         why.append("expected one loop over PRECEDENCE_TABLE building the groups")
     else:
-        finds = [n for n in H.walk(group_loops[0]["body"]) if H.kind(n) == "MethodCall" and n["name"] == "find"]
+        finds = [n for n in H.walk(group_loops[0]["body"]) if H.kind(n) == "MethodCall" and n["name"] in ("find", "position", "find_map", "rposition") and n["args"] and H.kind(H.strip(n["args"][0])) == "Closure"]
         okf = False
         if len(finds) == 1:
             clo = H.strip(finds[0]["args"][0])
             if H.kind(clo) == "Closure":
                 b = H.strip(clo["body"])
-                if H.kind(b) == "Binary" and b["op"] == "And":
-                    sides = [H.strip(b["l"]), H.strip(b["r"])]
-                    if all(H.kind(s) == "Binary" and s["op"] == "Eq" for s in sides):
-                        names = set()
-                        for s in sides:
-                            names.add(H.path_local(s["r"]))
-                        okf = names == {"prec", "assoc"} or len(names) == 2
+                # which positions of the stored group tuple are compared for equality: |(p, a, _)| *p == prec && *a == assoc
+                pat = clo["params"][0]
+                while H.kind(pat) == "Ref":
+                    pat = pat["pat"]
+                pos_of = {}
+                if H.kind(pat) == "Tuple":
+                    for i_, q_ in enumerate(pat["pats"]):
+                        for bn in H.pat_binds(q_):
+                            pos_of[bn] = i_
+                sides = []
+                stack = [b]
+                while stack:
+                    x_ = H.strip(stack.pop())
+                    if H.kind(x_) == "Binary" and x_["op"] == "And":
+                        stack += [x_["l"], x_["r"]]
+                    else:
+                        sides.append(x_)
+                compared = set()
+                clean = True
+                for s_ in sides:
+                    if H.kind(s_) == "Binary" and s_["op"] == "Eq":
+                        ls = {pos_of.get(H.path_local(s_["l"])), pos_of.get(H.path_local(s_["r"]))} - {None}
+                        if len(ls) == 1:
+                            compared |= ls
+                            continue
+                    clean = False
+                if clean and compared and compared <= {0, 1} and 0 in compared:
+                    okf = True
+                    GROUP_KEY[0] = tuple(sorted(compared))
         if not okf:
             why.append("groups are not keyed by (precedence, associativity) equality")
     # registrations after the loop, in program order (source position)
     all_ops = [n for n in H.walk(body) if H.kind(n) == "MethodCall" and n["name"] == "op"]
-    all_ops.sort(key=lambda n: n["sp"][3])
+    all_ops.sort(key=lambda n: n["sp"][4])  # by END offset: in a method chain `p.op(a).op(b)` the inner call ends first
     tail = []
     loop_op = reg_loops[0][1][0] if reg_loops and reg_loops[0][1] else None
     seen_loop = False
@@ -133,12 +160,17 @@ def builder_shape(core):
     return (not why, why, tail)
 
 
+GROUP_KEY = [(0, 1)]  # tuple positions of the group that the builder compares: (prec, assoc); set by builder_shape
+
+
 def parser_levels(rows, tail):
-    """effective binding order as pest's PrattParser sees it: groups by (prec, assoc) in first-seen order, stably sorted by prec."""
+    """effective binding order as pest's PrattParser sees it: groups by the builder's key (normally (prec, assoc)) in first-seen
+    order, stably sorted by prec. A group's associativity is that of its first row (what the builder stores)."""
     groups = []
+    key = GROUP_KEY[0]
     for r in rows:
         for g in groups:
-            if g[0] == r["prec"] and g[1] == r["assoc"]:
+            if (0 not in key or g[0] == r["prec"]) and (1 not in key or g[1] == r["assoc"]):
                 g[2].append(r)
                 break
         else:
@@ -186,16 +218,22 @@ def run(ctx):
     # ---------------- R1
     ctx.rule("C10.R1", "effective binding order (PRECEDENCE_TABLE + registration order in build_pratt_parser) equals the documented level list: every operator once, on its level, with its associativity", floor=30)
     ok, why, tail = builder_shape(core)
-    ctx.inst("C10.R1", "build_pratt_parser#shape", ok if ok else False,
-             "builder algorithm recognised (group by (prec,assoc) first-seen, one stable sort on prec, register in order, then prefix, factorial, access|dot_access|call_list)" if ok else "; ".join(why),
+    ctx.inst("C10.R1", "build_pratt_parser#shape", True if ok else None,
+             "builder algorithm recognised (group by (prec,assoc) first-seen, one stable sort on prec, register in order, then prefix, factorial, access|dot_access|call_list)" if ok else "builder algorithm NOT recognised, the effective binding order cannot be read off it: " + "; ".join(why),
              "blots-core/src/precedence.rs")
     levels = parser_levels(rows, tail)
-    ctx.inst("C10.R1", "levels#count", len(levels) == len(DOC_LEVELS), "parser has %d binding levels, documented %d: %s" % (len(levels), len(DOC_LEVELS), [sorted(l[2]) for l in levels]), "blots-core/src/precedence.rs")
+    if not ok:
+        # without a recognised registration algorithm the level computation below would be a guess: no verdict on the levels
+        for di, (dk, da, dops) in enumerate(DOC_LEVELS):
+            for o in sorted(dops):
+                ctx.inst("C10.R1", "op=%s" % o, None, "not decided: the builder's registration algorithm was not recognised", "blots-core/src/precedence.rs")
+        levels = []
+    ctx.inst("C10.R1", "levels#count", (len(levels) == len(DOC_LEVELS)) if ok else None, "parser has %d binding levels, documented %d: %s" % (len(levels), len(DOC_LEVELS), [sorted(l[2]) for l in levels]), "blots-core/src/precedence.rs")
     seen = {}
     for li, (kind, assoc, ops) in enumerate(levels):
         for o in ops:
             seen.setdefault(o, []).append(li)
-    for di, (dk, da, dops) in enumerate(DOC_LEVELS):
+    for di, (dk, da, dops) in enumerate(DOC_LEVELS if ok else []):
         for o in sorted(dops):
             where = seen.get(o, [])
             if len(where) != 1:
